@@ -414,15 +414,21 @@ Foreach(s, st, body) ==
           /\ UNCHANGED pc
   /\ UNCHANGED <<W, W0, mode, par, cur, tmp, held, tar>>
 
-\* error("boom")
+\* error(<any value>) / a runtime fault of the Lua VM; whatever is raised, an unprotected raise ends
+\* this script only (sandbox.go:RunScript returns the error, root.go:process logs it and returns
+\* ErrScriptFailed), a raise inside pcall is swallowed
 Raise(s, ext) ==
   LET st == Fetch(s, ext) IN
-  /\ pc[s] = "ready" /\ CanRun(s) /\ st.op = "error"
+  /\ pc[s] = "ready" /\ CanRun(s) /\ st.op \in ErrorOps
   /\ Consume(s)
   /\ IF ctl[s].guard = "skip"
      THEN LET a == After(ctl[s], env[s], "none") IN
           /\ ctl' = [ctl EXCEPT ![s] = a.c] /\ env' = [env EXCEPT ![s] = a.e]
           /\ last' = Obs(s, K(s), st, "norun", "") /\ UNCHANGED pc
+     ELSE IF st.p = "p"
+     THEN LET a == After(ctl[s], env[s], "none") IN
+          /\ ctl' = [ctl EXCEPT ![s] = a.c] /\ env' = [env EXCEPT ![s] = a.e]
+          /\ last' = Obs(s, K(s), st, "err", "err") /\ UNCHANGED pc
      ELSE /\ pc' = [pc EXCEPT ![s] = "failed"] /\ ctl' = [ctl EXCEPT ![s] = NoCtl]
           /\ last' = Obs(s, K(s), st, "err", "err") /\ UNCHANGED env
   /\ UNCHANGED <<W, W0, mode, par, cur, tmp, held, tar>>
